@@ -26,8 +26,9 @@ struct CellSummary {
     annotations: Vec<(String, i64, i64)>,
     shapes: LayerMap,
     outline: Vec<(i64, i64)>,
-    ports: Vec<(String, BTreeMap<i64, Vec<ShapeKey>>)>,
-    blockages: BTreeMap<i64, Vec<ShapeKey>>,
+    /// per (layer number, purpose number): ports are exported under the layer's Pin purpose, blockages under its Obstruction purpose
+    ports: Vec<(String, BTreeMap<(i64, i64), Vec<ShapeKey>>)>,
+    blockages: BTreeMap<(i64, i64), Vec<ShapeKey>>,
 }
 #[derive(Debug, Clone, PartialEq, Default)]
 struct LibSummary {
@@ -79,13 +80,13 @@ fn summarize_raw(lib: &Library) -> Result<LibSummary, String> {
                 let mut m = BTreeMap::new();
                 for (k, v) in &p.shapes {
                     let l = layers.get(*k).ok_or("unknown layer key")?;
-                    m.insert(l.layernum as i64, sorted(v.iter().map(|s| (cshape_of(s), String::new())).collect()));
+                    m.insert((l.layernum as i64, l.num(&raw::LayerPurpose::Pin).map_or(-1, |n| n as i64)), sorted(v.iter().map(|s| (cshape_of(s), String::new())).collect()));
                 }
                 s.ports.push((p.net.clone(), m));
             }
             for (k, v) in &a.blockages {
                 let l = layers.get(*k).ok_or("unknown layer key")?;
-                s.blockages.insert(l.layernum as i64, sorted(v.iter().map(|s| (cshape_of(s), String::new())).collect()));
+                s.blockages.insert((l.layernum as i64, l.num(&raw::LayerPurpose::Obstruction).map_or(-1, |n| n as i64)), sorted(v.iter().map(|s| (cshape_of(s), String::new())).collect()));
             }
         }
         out.cells.insert(c.name.clone(), s);
@@ -145,13 +146,13 @@ fn summarize_proto(p: &proto::Library) -> LibSummary {
                 let mut m = BTreeMap::new();
                 for ls in &port.shapes {
                     let l = ls.layer.clone().unwrap_or_default();
-                    m.insert(l.number, pshapes(ls).into_iter().map(|(s, _)| (s, String::new())).collect());
+                    m.insert((l.number, l.purpose), pshapes(ls).into_iter().map(|(s, _)| (s, String::new())).collect());
                 }
                 s.ports.push((port.net.clone(), m));
             }
             for ls in &a.blockages {
                 let l = ls.layer.clone().unwrap_or_default();
-                s.blockages.insert(l.number, pshapes(ls).into_iter().map(|(s, _)| (s, String::new())).collect());
+                s.blockages.insert((l.number, l.purpose), pshapes(ls).into_iter().map(|(s, _)| (s, String::new())).collect());
             }
         }
         out.cells.insert(c.name.clone(), s);
